@@ -17,7 +17,7 @@ from ..runner import Stats, reset_library_state
 PROP = "C13"
 BUDGET = {"quick": 300, "thorough": 3000}
 META = {
-    "rule": "matrices with designed singular values spread over 1-3 charges (five spectra menus + a tie menu) x 4 direction patterns x even / odd total charge x abelian / fermionic "
+    "rule": "matrices with designed singular values spread over 1-3 charges (seven spectra menus, two of them with exact zeros: a charge whose only block is exactly zero and a rank-deficient block, + a tie menu) x 4 direction patterns x even / odd total charge x abelian / fermionic "
     "(pending signs) x real / complex x block shapes tall / wide / square, also with the row or column index already fused (matrices that come from a fuse); for each: six cutoff modes x cutoffs at half the first threshold, every midpoint between consecutive decision "
     "thresholds and 1.5x / 10x beyond the last x max_bond in {-1, 1..rank+1}; no-cutoff runs for every max_bond; absorb in {None,-1,0,1,'left','both','right'}. "
     "non-trivial = run in which at least one value is discarded and at least one kept",
@@ -35,6 +35,9 @@ SPECTRA = [
     ("three", [[5.0, 2.0, 0.3], [4.0, 1.0], [3.0, 0.1]]),
     ("scales", [[1.0, 0.5], [0.75, 0.25, 0.05]]),
     ("single-values", [[2.5], [1.5], [0.5]]),
+    # exact zeros: a charge whose only block is exactly zero (shape r x 1 / 1 x r / 1 x 1), and a rank-deficient block
+    ("zero-block", [[5.0, 2.0, 0.3], [0.0]]),
+    ("rank-deficient", [[3.0, 0.0], [1.0]]),
 ]
 TIES = ("ties", [[2.0, 2.0, 1.0], [2.0, 1.0]])
 POWER = {3: 2, 4: 2, 5: 1, 6: 1}
@@ -96,7 +99,9 @@ def cutoff_menu(allv, mode):
         cum = np.cumsum(s ** p)
         ths = list(cum / (cum[-1] if mode in (4, 6) else 1.0))
     ths = sorted(set(ths))
-    return [ths[0] * 0.5] + [(a + b) / 2 for a, b in zip(ths, ths[1:])] + [ths[-1] * 1.5, ths[-1] * 10]
+    menu = [ths[0] * 0.5] + [(a + b) / 2 for a, b in zip(ths, ths[1:])] + [ths[-1] * 1.5, ths[-1] * 10]
+    # a cutoff of exactly 0 means "no cutoff" (different rule, checked separately): only positive cutoffs here
+    return [c for c in menu if c > 0]
 
 
 def kept_values(s):
@@ -108,6 +113,9 @@ def kept_values(s):
 def factor_audit(x, U, s, VH, what, out):
     for kind, det in audit(U) + audit(VH):
         out.append((f"invalid-factor-{kind}", f"{what}: {det}"))
+    for nm, f in (("U", U), ("VH", VH), ("s", s)):
+        if f is not None and not all(np.all(np.isfinite(np.asarray(b))) for b in f.blocks.values()):
+            out.append(("non-finite-factor", f"{what}: {nm} holds NaN / inf"))
     bl, br = U.indices[1], VH.indices[0]
     if dict(bl.chargemap) != dict(br.chargemap):
         out.append(("bond-tables-differ", f"{what}: {dict(bl.chargemap)} vs {dict(br.chargemap)}"))
